@@ -80,6 +80,8 @@ def apply_op(ds, op, aux=None, args=None):
         return spec.rotate(**kw)
     if m == "scale_by_hs":
         return spec.scale_by_hs(op["expr"], **kw)
+    if m == "interp_like":
+        return spec.interp_like(args["other"], **kw)
     if m == "interp":
         freq = args["freq"] if "freq" in args else (None if op.get("freq") is None else np.asarray(op["freq"], dtype=float))
         dirs = args["dir"] if "dir" in args else (None if op.get("dir") is None else np.asarray(op["dir"], dtype=float))
